@@ -882,7 +882,27 @@ func sgCheckAnswer(r *sgRun, ps *sgPeerState, rec *sgRec, ans, off *vfSDP, who s
 							primaryHere = true
 						}
 					}
-					if primaryHere {
+					// does this section of the offer carry a retransmission payload type for that primary at
+					// all? If it does (under its own number), the answer merely uses the number another section
+					// gave it: the payload-type leak between sections reported below
+					rtxOfferedHere := false
+					apt := ""
+					for _, v := range vfAttrVals(a.Attrs, "fmtp") {
+						if f := strings.SplitN(v, " ", 2); len(f) == 2 && f[0] == pt && strings.HasPrefix(f[1], "apt=") {
+							apt = f[1]
+						}
+					}
+					// (for that primary, or for another configuration of the same codec in this section: pion
+					// matches H264 levels onto one local codec)
+					om2 := sgRtpmaps(o)
+					primaryName := om2[strings.TrimPrefix(apt, "apt=")]
+					for _, v := range vfAttrVals(o.Attrs, "fmtp") {
+						if f := strings.SplitN(v, " ", 2); len(f) == 2 && apt != "" && strings.HasPrefix(f[1], "apt=") && strings.HasPrefix(om2[f[0]], "rtx/") &&
+							(f[1] == apt || (primaryName != "" && om2[strings.TrimPrefix(f[1], "apt=")] == primaryName)) {
+							rtxOfferedHere = true
+						}
+					}
+					if primaryHere && !rtxOfferedHere {
 						r.viol("C16", "answer-adds-rtx-the-section-did-not-offer"+origin, fmt.Sprintf("%s: section %d (mid %q): answer lists RTX payload type %s whose primary is offered here, but the offer section lists only %v", who, i, om, pt, o.Fmts))
 						continue
 					}
